@@ -37,7 +37,7 @@ func Strings(alpha [][]byte, maxLen, workers int, f func(w int, s []byte)) {
 				}
 				if len(j.prefix) < p {
 					// short string: exactly this one
-					f(w, buf)
+					f(w, buf[:len(buf):len(buf)])
 					continue
 				}
 				rec(alpha, maxLen-len(j.prefix), buf, w, f)
@@ -61,7 +61,9 @@ func Strings(alpha [][]byte, maxLen, workers int, f func(w int, s []byte)) {
 }
 
 func rec(alpha [][]byte, left int, buf []byte, w int, f func(int, []byte)) {
-	f(w, buf)
+	// capacity = length: code under test that reads past the end of its input
+	// must fail loudly instead of seeing bytes of an earlier string
+	f(w, buf[:len(buf):len(buf)])
 	if left == 0 {
 		return
 	}
